@@ -69,6 +69,12 @@ func c18FieldsClassified(c *Check, a *Anchors) {
 			f := st.Field(i)
 			k := tn + "." + f.Name()
 			cls, ok := fieldClass[k]
+			if m := memoOf(c.P); !ok && m.Holder == f {
+				// the memo in a struct of its own: nothing but the memo map and its mutex (the map is judged by dynamic-cache-locked)
+				if inner, isSt := derefStruct(f.Type()); isSt && inner.NumFields() == 2 {
+					cls, ok = "struct of {memo map, its mutex}; the map is guarded by that mutex", true
+				}
+			}
 			c.Decide(ok, "fields-classified", k, f.Pos(), cls, "field "+k+" is not classified: it is shared by all concurrently running tasks, so it must be configuration-only, guarded by a lock, atomic or a concurrency-safe type")
 		}
 	}
@@ -394,4 +400,12 @@ func c18CachePerGoroutine(c *Check, a *Anchors) {
 		return
 	}
 	c.OK("templater-cache-per-goroutine", "spawned-literals", 0, fmt.Sprintf("%d spawned function literal(s) inspected", n))
+}
+
+func derefStruct(t types.Type) (*types.Struct, bool) {
+	if pt, ok := t.Underlying().(*types.Pointer); ok {
+		t = pt.Elem()
+	}
+	st, ok := t.Underlying().(*types.Struct)
+	return st, ok
 }
